@@ -100,7 +100,7 @@ theorem rotPt_neg60 (p : Pt ℝ) :
     snap_of_large (-(Real.sqrt 3 / 2)) (by rw [abs_neg, abs_of_pos (by positivity)]; linarith)]
   ext <;> simp
 
-theorem rotPt_120 (p : Pt ℝ) :
+theorem rotPt_120_deg (p : Pt ℝ) :
     rotPt (120 : ℝ) p = ⟨-(1 / 2) * p.x - Real.sqrt 3 / 2 * p.y, Real.sqrt 3 / 2 * p.x - 1 / 2 * p.y⟩ := by
   have h : (120 : ℝ) * Real.pi / ((180 : ℕ) : ℝ) = Real.pi - Real.pi / 3 := by push_cast; field_simp; ring
   have h3 := sqrt3_gt_one
